@@ -5,9 +5,10 @@ import (
 	"fmt"
 	"log/slog"
 	"strings"
+	"unicode"
+	"unicode/utf8"
 
 	"github.com/AdguardTeam/AdGuardHome/internal/filtering"
-	"github.com/AdguardTeam/golibs/stringutil"
 )
 
 type criterionType int
@@ -79,11 +80,66 @@ func ctDomainOrClientCaseNonStrict(
 	host string,
 	ip string,
 ) (ok bool) {
-	return stringutil.ContainsFold(clientID, term) ||
-		stringutil.ContainsFold(host, term) ||
-		(asciiTerm != "" && stringutil.ContainsFold(host, asciiTerm)) ||
-		stringutil.ContainsFold(ip, term) ||
-		stringutil.ContainsFold(name, term)
+	return containsFold(clientID, term) ||
+		containsFold(host, term) ||
+		(asciiTerm != "" && containsFold(host, asciiTerm)) ||
+		containsFold(ip, term) ||
+		containsFold(name, term)
+}
+
+// containsFold reports whether s contains substr under the Unicode simple case
+// folding.  It doesn't allocate.
+//
+// NOTE:  Do not use [stringutil.ContainsFold] here, since it only tries a
+// single step of the case folding orbit for the first rune of substr and thus
+// doesn't find e.g. "Kids" by "kids" or "Samsung" by "samsung".
+func containsFold(s, substr string) (ok bool) {
+	if substr == "" {
+		return true
+	}
+
+	for i := range s {
+		if hasPrefixFold(s[i:], substr) {
+			return true
+		}
+	}
+
+	return false
+}
+
+// hasPrefixFold reports whether s begins with prefix under the Unicode simple
+// case folding.
+func hasPrefixFold(s, prefix string) (ok bool) {
+	for _, pr := range prefix {
+		if s == "" {
+			return false
+		}
+
+		sr, size := utf8.DecodeRuneInString(s)
+		if !equalFoldRune(sr, pr) {
+			return false
+		}
+
+		s = s[size:]
+	}
+
+	return true
+}
+
+// equalFoldRune reports whether a and b are equal under the Unicode simple
+// case folding.
+func equalFoldRune(a, b rune) (ok bool) {
+	if a == b {
+		return true
+	}
+
+	for r := unicode.SimpleFold(a); r != a; r = unicode.SimpleFold(r) {
+		if r == b {
+			return true
+		}
+	}
+
+	return false
 }
 
 // quickMatch quickly checks if the line matches the given search criterion.
